@@ -15,7 +15,7 @@ def _copy_rng_states(src, dst):
         pd.rng.bit_generator.state = copy.deepcopy(ps.rng.bit_generator.state)
 
 
-@bounded("C09", "roundtrip_native", native_runs=36)
+@bounded("C09", "roundtrip_native", native_runs=48)
 def roundtrip_native(vc):
     from contracts.common import Posterior, make_sampler, stored_points, quiet, seed_chain
     from inference.mcmc import GibbsChain, PcaChain, HamiltonianChain, EnsembleSampler
@@ -24,6 +24,8 @@ def roundtrip_native(vc):
     steps = vc.choice("steps_before_save", [0, 1, 99, 100, 101, 150])
     cfg = vc.choice("config", ["plain", "bounds", "temperature"])
     seed = vc.int("seed", lo=0, hi=10 ** 6)
+    if vc.choice("more_than_ten_parameters", [False, False, True]):
+        d = 11 + seed % 3            # "any sampler": per-parameter keys of the file with two-digit indices
     rng = np.random.default_rng(seed)
     post = Posterior("gauss", d, rng)
     bounds = (post.mu - 4.0, post.mu + 4.0) if cfg == "bounds" else None
